@@ -142,17 +142,25 @@ def signed_int_to_bytes(bytes):
     return struct.pack('<i', bytes)
 
 
+VALID_BITRATES = (0.25, 0.5, 1, 2, 4, 8, 16, 32)
+VALID_BLOCK_DIMENSIONS = (4, 8, 16, 32, 64, 128, 256, 512, 1024, 2048, 4096, 8192)
+
+
 def define_blockshape_2d(bits_per_voxel, blockshape):
     assert blockshape[0] == 1
-    return define_blockshape_3d(bits_per_voxel, blockshape)
+    return _define_blockshape(bits_per_voxel, blockshape, is_2d=True)
 
 
 def define_blockshape_3d(bits_per_voxel, blockshape):
-    if sum([1 for n in list(blockshape) + [bits_per_voxel] if n == -1]) > 1:
-        raise ValueError("Blockshape is underdefined")
+    return _define_blockshape(bits_per_voxel, blockshape, is_2d=False)
 
+
+def _define_blockshape(bits_per_voxel, blockshape, is_2d):
     if isinstance(bits_per_voxel, str):
         bits_per_voxel = float(bits_per_voxel)
+
+    if sum([1 for n in list(blockshape) + [bits_per_voxel] if n == -1]) > 1:
+        raise ValueError("Blockshape is underdefined")
 
     bits_per_voxel = 1 / -bits_per_voxel if bits_per_voxel < -1 else bits_per_voxel
 
@@ -168,8 +176,17 @@ def define_blockshape_3d(bits_per_voxel, blockshape):
         elif blockshape[2] == -1:
             blockshape = (blockshape[0], blockshape[1], int(DISK_BLOCK_BYTES * 8 //
                                                             (blockshape[0] * blockshape[1] * bits_per_voxel)))
-        else:
-            assert(bits_per_voxel * blockshape[0] * blockshape[1] * blockshape[2] == DISK_BLOCK_BYTES * 8)
+
+    # A reader can only address blocks whose dimensions are powers of two (at least one 4x4x4
+    # compression unit) which fill a disk block exactly at one of the supported fixed bit rates.
+    if bits_per_voxel not in VALID_BITRATES:
+        raise ValueError(f"bits_per_voxel must resolve to one of {VALID_BITRATES}, got {bits_per_voxel}")
+    for dim in (blockshape[1:] if is_2d else blockshape):
+        if dim not in VALID_BLOCK_DIMENSIONS:
+            raise ValueError(f"Blockshape dimensions must be powers of 2 between 4 and 8192, got {blockshape}")
+    if is_2d and bits_per_voxel < 1:
+        raise ValueError("2D compression requires at least 1 bit per voxel (zfp needs 9 bits per 4x4 block)")
+    assert(bits_per_voxel * blockshape[0] * blockshape[1] * blockshape[2] == DISK_BLOCK_BYTES * 8)
     return bits_per_voxel, blockshape
 
 
